@@ -375,6 +375,9 @@ def run(prop_id, tier, seed, replay=None):
                     if ev["status"].startswith("rejected") and other["status"].startswith("rejected"):
                         ev["altm"]["status"] = "none"
     drv_s = time.time() - t0
+    def case_of(tid):
+        return cases[(tid - 1000000) // 8] if tid >= 1000000 else cases[tid]
+
     good, bad = sanitize(events)
     for ev in bad:
         sig = {"clause": f"{prop_id}.projection", "pid": ev.get("pid"), "status": ev.get("status", "lookup-error")}
@@ -382,8 +385,6 @@ def run(prop_id, tier, seed, replay=None):
             raise vlib.MachineryError("driver error: " + ev.get("error", ""))
         rep.violation(sig, {"event": ev, "case": case_of(ev["tid"])})
     fails = validate(wd, good, rep)
-    def case_of(tid):
-        return cases[(tid - 1000000) // 8] if tid >= 1000000 else cases[tid]
     evmap = {(ev["tid"], ev["seq"]): ev for ev in good}
     own = set(prof["own"])
     other = {}
